@@ -90,7 +90,7 @@ fn kinds_count(k: u8) -> u32 {
     k.count_ones()
 }
 
-fn main() {
+pub fn main() {
     let mut ck = Check::new("C57", "exploration");
     ck.rule("Byte strings of 0..64 pieces without NUL (plain ASCII, digits and escape letters that may follow an escape, named control bytes, other control bytes, DEL, double quote, backslash, valid multi-byte UTF-8, arbitrary bytes >= 0x80) quoted by a transcription of git's quote_c_style in both core.quotePath modes, followed by trailing text (none, space/tab-led, arbitrary bytes incl. quotes and backslashes). Non-trivial: the quoted form uses at least two different escape kinds (named, octal, quote/backslash). Distinct by (bytes, mode, trailing). The transcription is validated against real git on generated paths in every run (sub-check git-validated).");
     ck.assume(&format!(
